@@ -503,6 +503,15 @@ func writeUnionConverters(w *formatting.IndentedWriter, unionType *dsl.Generaliz
 
 				w.WriteStringln("throw std::runtime_error(\"Invalid union value\");")
 			} else {
+				if unionType.Cases.HasNullOption() {
+					// other writers (e.g. Python) write the null case as a bare null
+					w.WriteStringln("if (j.is_null()) {")
+					w.Indented(func() {
+						w.WriteStringln("value = std::monostate{};")
+						w.WriteStringln("return;")
+					})
+					w.WriteStringln("}")
+				}
 				w.WriteStringln("auto it = j.begin();")
 				w.WriteStringln("std::string tag = it.key();")
 				for _, v := range unionType.Cases {
